@@ -67,6 +67,21 @@ pub fn run_case(env: &Env, ctx: &mut Ctx, idx: u64) {
             format!("{}\n§ junk", env.corpus.pick_program(&mut rng))
         }
     };
+    // hostile edges: what an editor, a language server or a reader might want to "clean" on one route only
+    // (byte order mark, NUL, Ctrl-Z, lone CR, missing final newline)
+    let mut body = body;
+    if rng.chance(1, 8) {
+        body = format!("{}{}", rng.pick(&["\u{feff}", "\u{feff}\n", "\u{feff}\u{feff}", "\0", "\r", "\u{1a}", "\n\n", "\u{2028}"]), body);
+        ctx.count("inputs_with_edge_prefix", 1);
+    }
+    if rng.chance(1, 8) {
+        if rng.chance(1, 3) {
+            body = body.trim_end().to_string();
+        } else {
+            body.push_str(*rng.pick(&["\u{feff}", "\0", "\u{1a}", "\r", " ", "\r\n\r\n", "\\"]));
+        }
+        ctx.count("inputs_with_edge_suffix", 1);
+    }
     let path = dir.join("top.sv");
     // one case in three: the file is afterwards rewritten in place (same path, same length, other contents)
     // and the whole comparison repeated on the same thread
